@@ -182,6 +182,7 @@ DataImage(cl, kind, n, blk) ==
                    !.segs = <<Seg(N(1), N(4), Z, N(4096), N(4096), Z, Z, N(1)), Seg(N(3), N(4), Z, Z, Z, Z, Z, N(1)),
                               Seg(N(0), N(4), Z, Z, Z, Z, Z, N(1)), Seg(N(0), N(4), Z, Z, Z, Z, Z, N(1))>>]
 Sizes == {0, 1, 63, 64, 65, 300, 4096}
+SizesDeep == {2, 3, 4, 62, 66, 127, 128, 129, 255, 256, 257, 1000, 8191, 8192}       \* thorough tier ("data2")
 InterpStr == <<47, 108, 105, 98, 47, 108, 100, 46, 115, 111, 0>>                 \* "/lib/ld.so"
 \* the .interp contents may be padded behind the terminator (alignment padding; a further string): the name ends at the first NUL
 InterpUtf8 == <<47, 108, 105, 98, 47, 108, 100, 45, 195, 169, 46, 115, 111, 0>>     \* "/lib/ld-e'.so" (UTF-8: e-acute = C3 A9)
@@ -195,8 +196,9 @@ Init ==
        [] mode = "addr" -> \E cl \in ClsLe, li \in 1..Len(Layouts) : obj = [cl |-> cl, li |-> li]
        [] mode = "strings" -> \E cl \in ClsLe, pad \in {0, 1, 37, 63} : obj = [cl |-> cl, pad |-> pad]
        [] mode = "longstr" -> \E cl \in ClsLe : obj = [cl |-> cl]
-       [] mode = "data" -> \E cl \in ClsLe, k \in DataKinds, n \in Sizes \cup {70000}, blk \in {65535, 100} :
+       [] mode \in {"data", "data2"} -> \E cl \in ClsLe, k \in DataKinds, n \in (IF mode = "data2" THEN SizesDeep ELSE Sizes \cup {70000}), blk \in {65535, 100, 7} :
                               /\ (blk = 100 => k = "zlib" /\ n \in {0, 300})
+                              /\ (blk = 7 => mode = "data2" /\ k = "zlib" /\ n \in {2, 62, 129})       \* many small stored blocks
                               /\ (n = 70000 => k = "nobits")
                               /\ obj = [cl |-> cl, kind |-> k, n |-> n, blk |-> blk]
 \* the grid writer picks the section flags and size in a second step (so that TLC workers share the images)
@@ -228,7 +230,7 @@ Case ==
          IN [mode |-> "strings", secidx |-> UserIndex(im, 2),
              chunks |-> [cs EXCEPT ![3] = <<off, <<0>>, 1>>] \o << <<off + 1, LongPat, LongRep>>, <<off + 1 + LongEnd, LongTail, 1>> >>,
              strings |-> [i \in 1..Len(os) |-> <<os[i], Compact(os[i])>>]]
-    [] mode = "data" ->
+    [] mode \in {"data", "data2"} ->
          LET im0 == DataImage(obj.cl, obj.kind, obj.n, obj.blk)
              doff == SecOff(im0, 2)   dlen == Len(im0.secs[2].data)
              \* the loadable segment covers exactly the data section's file bytes; the interpreter string sits in front of it
@@ -242,7 +244,7 @@ Case ==
              geo(fs) == InSegStrict([tls |-> FALSE, alloc |-> obj.kind \in {"raw", "nobits"}, nobits |-> obj.kind = "nobits", off |-> off2, addr |-> 64,
                                      size |-> IF obj.kind = "nobits" THEN obj.n ELSE dlen],
                                     [type |-> N(0), off |-> off2, vaddr |-> 64, filesz |-> fs, memsz |-> fs])
-         IN [mode |-> mode, kind |-> obj.kind, chunks |-> Chunks(im), secidx |-> UserIndex(im, 2),
+         IN [mode |-> "data", kind |-> obj.kind, chunks |-> Chunks(im), secidx |-> UserIndex(im, 2),
              payload |-> IF obj.kind = "nobits" THEN Rep(0, obj.n) ELSE Payload(obj.n),
              data_size |-> IF obj.kind = "zlib_badsize" THEN obj.n + 1 ELSE obj.n,
              data_align |-> IF obj.kind \in {"raw", "nobits"} THEN 16 ELSE ChAlign(obj.n),
@@ -263,7 +265,7 @@ ChunkedEqDeclarative == mode = "strings" => \A o \in StrOffsets : LET d == CStrA
                                               d.ok /\ c.ok /\ d.s = c.s
 LongCompactEqDeclarative == mode = "longstr" => /\ Chunks(LongImage(obj.cl))[3][2] = LongTable
                                                 /\ \A o \in LongOffsets : LET d == CStrAt(LongTable, o) IN d.ok /\ d.s = Expand(Compact(o))
-DeflateRoundTrip == mode = "data" /\ obj.kind = "zlib" => LET p == Payload(obj.n) IN Inflate(Stored(p, obj.blk), 3) = p
+DeflateRoundTrip == mode \in {"data", "data2"} /\ obj.kind = "zlib" => LET p == Payload(obj.n) IN Inflate(Stored(p, obj.blk), 3) = p
 OffsetsInsideSegments == mode = "addr" => \A q \in AddrQueries : LET r == AddressOffsets(Layouts[obj.li], q[1], q[2]) IN
                                              \A i \in 1..Len(r) : \E j \in 1..Len(Layouts[obj.li]) :
                                                 LET g == Layouts[obj.li][j] IN g.load /\ r[i] >= g.off /\ r[i] + q[2] <= g.off + g.filesz
